@@ -80,6 +80,7 @@ func execStep(context *exprContext, expr *grammar.Grammar) error {
 		}
 
 		context.result = selectChild(nodeSet)
+		context.principal = principalElement
 	}
 
 	return execContext(context, expr.Next(nextBsr))
@@ -198,17 +199,31 @@ func execNameTestAnyElement(context *exprContext, expr *grammar.Grammar) error {
 	result := make(NodeSet, 0)
 
 	for _, i := range nodeSet {
-		if _, ok := i.Node().(node.NamedNode); ok {
-			result = append(result, i)
-		}
-
-		if _, ok := i.Node().(node.Namespace); ok {
+		if isPrincipalNodeType(context, i.Node()) {
 			result = append(result, i)
 		}
 	}
 
 	context.result = result
 	return nil
+}
+
+// isPrincipalNodeType reports whether the node has the principal node type of
+// the axis of the current step: attributes for the attribute axis, namespaces
+// for the namespace axis, and elements for every other axis.
+func isPrincipalNodeType(context *exprContext, n node.Node) bool {
+	_, isAttr := n.(node.Attribute)
+	_, isNamespace := n.(node.Namespace)
+
+	switch context.principal {
+	case principalAttribute:
+		return isAttr
+	case principalNamespace:
+		return isNamespace
+	}
+
+	_, isNamed := n.(node.NamedNode)
+	return isNamed && !isAttr && !isNamespace
 }
 
 func execNameTestNamespaceAnyLocal(context *exprContext, expr *grammar.Grammar) error {
@@ -246,7 +261,7 @@ func nameTestNamespaceAnyLocal(namespaceLookup string, context *exprContext, exp
 	result := make(NodeSet, 0)
 
 	for _, i := range nodeSet {
-		if node, ok := i.Node().(node.NamedNode); ok {
+		if node, ok := i.Node().(node.NamedNode); ok && isPrincipalNodeType(context, i.Node()) {
 			if node.Space() == namespaceValue {
 				result = append(result, i)
 			}
@@ -287,7 +302,7 @@ func nameTestLocalAnyNamespace(localValue string, context *exprContext, expr *gr
 	result := make(NodeSet, 0)
 
 	for _, i := range nodeSet {
-		if node, ok := i.Node().(node.NamedNode); ok {
+		if node, ok := i.Node().(node.NamedNode); ok && isPrincipalNodeType(context, i.Node()) {
 			if node.Local() == localValue {
 				result = append(result, i)
 			}
@@ -366,7 +381,7 @@ func nameTestQNameNamespaceWithLocal(namespaceLookup, local string, context *exp
 	result := make(NodeSet, 0)
 
 	for _, i := range nodeSet {
-		if node, ok := i.Node().(node.NamedNode); ok {
+		if node, ok := i.Node().(node.NamedNode); ok && isPrincipalNodeType(context, i.Node()) {
 			if node.Local() == local && node.Space() == namespaceValue {
 				result = append(result, i)
 			}
@@ -388,13 +403,13 @@ func execNameTestQNameLocalOnly(context *exprContext, expr *grammar.Grammar) err
 	queryName := expr.GetString()
 
 	for _, child := range nodeSet {
-		if elem, ok := child.Node().(node.NamedNode); ok {
+		if elem, ok := child.Node().(node.NamedNode); ok && isPrincipalNodeType(context, child.Node()) {
 			if elem.Space() == "" && elem.Local() == queryName {
 				nextResult = append(nextResult, child)
 			}
 		}
 
-		if ns, ok := child.Node().(node.Namespace); ok {
+		if ns, ok := child.Node().(node.Namespace); ok && context.principal == principalNamespace {
 			namespaceValue := context.NamespaceDecls[queryName]
 
 			if ns.NamespaceValue() == namespaceValue {
@@ -417,12 +432,14 @@ func execAxisName(context *exprContext, expr *grammar.Grammar) error {
 
 	axis := expr.GetString()
 	var result Result
+	context.principal = principalElement
 
 	switch axis {
 	case "child":
 		result = selectChild(nodeSet)
 	case "attribute":
 		result = selectAttributes(nodeSet)
+		context.principal = principalAttribute
 	case "ancestor":
 		result = selectAncestor(nodeSet)
 	case "ancestor-or-self":
@@ -437,6 +454,7 @@ func execAxisName(context *exprContext, expr *grammar.Grammar) error {
 		result = selectFollowingSibling(nodeSet)
 	case "namespace":
 		result = selectNamespace(nodeSet)
+		context.principal = principalNamespace
 	case "parent":
 		result = selectParent(nodeSet)
 	case "preceding":
@@ -471,6 +489,7 @@ func execAbbreviatedAxisSpecifier(context *exprContext, expr *grammar.Grammar) e
 	}
 
 	context.result = selectAttributes(nodeSet)
+	context.principal = principalAttribute
 	return nil
 }
 
